@@ -33,7 +33,7 @@ ASSUMPTIONS = [
 def budget(tier):
     if tier == 'quick':
         return {'runs': 1500, 'wall_cap_s': 110, 'per_run_timeout_s': 300, 'shrink_tests': 200}
-    return {'runs': 40000, 'wall_cap_s': 2400, 'per_run_timeout_s': 600, 'shrink_tests': 400}
+    return {'runs': 80000, 'wall_cap_s': 2400, 'per_run_timeout_s': 600, 'shrink_tests': 400}
 
 
 # ------------------------------------------------------------------------------------------------ generation
